@@ -271,7 +271,7 @@ pub fn check_generic(scn: &Scenario) -> Result<CaseInfo, String> {
     Ok(CaseInfo { nontrivial: nt, classes: info.classes })
 }
 
-pub const RULE: &str = "permute = C01-C04-style scenario x random clause permutation that keeps each unordered method's clause order and the relative order of ordered clauses; route = scenario run through the original only vs every call routed through one of 1-4 instances; twin = two mocks from the same clauses with two interleaved histories vs each history on a solo mock; generic = model-diff over two instantiations each of a generic trait and a generic method with overlapping patterns. Non-trivial = non-identity permutation over >= 2 methods / >= 2 instances used / >= 2 switches between the twins / both instantiations mentioned with overlapping masks and called; distinct = distinct case. racing-* = every schedule of 2-3 threads x 1-2 calls (sampled up to 4x3) routed through clones / one shared handle / the creator thread on an ordered sequence of several clauses and on ordered + unordered clauses mixed: outcomes and verdict equal the sequential run (C10's scheduler)";
+pub const RULE: &str = "permute = C01-C04-style scenario x random clause permutation that keeps each unordered method's clause order and the relative order of ordered clauses; route = scenario run through the original only vs every call routed through one of 1-4 instances; twin = two mocks from the same clauses with two interleaved histories vs each history on a solo mock; generic = model-diff over two instantiations each of a generic trait and a generic method with overlapping patterns. Non-trivial = non-identity permutation over >= 2 methods / >= 2 instances used / >= 2 switches between the twins / both instantiations mentioned with overlapping masks and called; distinct = distinct case. racing-* = every schedule of 2-3 threads x 1-2 calls (sampled up to 4x3) routed through clones / one shared handle / the creator thread on an ordered sequence of several clauses and on ordered + unordered clauses mixed: outcomes and verdict equal the sequential run (C10's scheduler). route-lent-clone = a method answered by make_ref(Holder(u.clone())) called 1-3 times through the original / a clone / a clone of a clone, ended by drop / verify() / report(): same outcomes, silent verdict (enumerated)";
 
 pub fn run(ctx: &Ctx) -> Verdict {
     let mut v = Verdict::new("exploration", RULE);
@@ -306,6 +306,8 @@ pub fn run(ctx: &Ctx) -> Verdict {
     v.subs.push(vcore::run_proptest(ctx, "twin", n, twin, check_twin));
     v.subs
         .push(vcore::run_proptest(ctx, "generic", n, gen::scenario(generic_cfg()), check_generic));
+    #[cfg(feature = "std")]
+    v.subs.push(vcore::run_enumerated(ctx, "route-lent-clone", lent::lent_route_table(), lent::check_lent_route));
     // routing calls through clones on several threads: every schedule of 2-3 threads on an ordered sequence
     // made of several clauses, and on ordered + unordered clauses mixed (C10's scheduler; the outcome of the
     // calls and the verdict must be those of the sequential run, whichever instance a call goes through)
@@ -319,12 +321,104 @@ pub fn run(ctx: &Ctx) -> Verdict {
     v
 }
 
+// ------------------------------------------------------------------ routing a call whose answer lends a value owning a clone
+#[cfg(feature = "std")]
+pub mod lent {
+    use serde::{Deserialize, Serialize};
+    use unimock::Unimock;
+    use vcore::panics::catch;
+    use vcore::CaseInfo;
+
+    pub struct Holder(pub Unimock);
+
+    #[unimock::unimock(api=LcMock)]
+    pub trait Lc {
+        fn child(&self) -> &Holder;
+        fn ping(&self, x: u8) -> u32;
+    }
+
+    /// `child()` is answered by `u.make_ref(Holder(u.clone()))` (a lent value that owns a clone of the instance the
+    /// call went through). Whichever instance the calls are routed through, the outcomes and the verdict are the same.
+    #[derive(Clone, Copy, Debug, PartialEq, Eq, Hash, Serialize, Deserialize)]
+    pub struct LentRouteCase {
+        /// 0 = the original, 1 = a clone, 2 = a clone of that clone
+        pub route: u8,
+        pub calls: u8,
+        /// 0 = drop, 1 = verify(), 2 = report()
+        pub finish: u8,
+    }
+
+    pub fn check_lent_route(c: &LentRouteCase) -> Result<CaseInfo, String> {
+        use unimock::{matching, MockFn};
+        let u = Unimock::new((
+            LcMock::child.each_call(matching!()).answers(&|u| u.make_ref(Holder(u.clone()))).n_times(c.calls as usize),
+            LcMock::ping.each_call(matching!(_)).answers(&|_, x| 500 + x as u32).n_times(3),
+        ));
+        let c1 = u.clone();
+        let c2 = c1.clone();
+        let mut outcome = Ok(());
+        {
+            let insts: [&Unimock; 3] = [&u, &c1, &c2];
+            let via = insts[c.route as usize % 3];
+            for k in 0..c.calls {
+                match catch(|| via.child().0.ping(k)) {
+                    // the lent holder's clone is usable: it shares the patterns
+                    Ok(v) if v == 500 + k as u32 => {}
+                    other => {
+                        outcome = Err(format!("call #{k} of child() routed through instance {}: ping through the lent holder gave {other:?}", c.route));
+                        break;
+                    }
+                }
+            }
+            for k in c.calls..3 {
+                let other = insts[(c.route as usize + 1 + k as usize) % 3];
+                if let Err(p) = catch(|| other.ping(k)) {
+                    outcome = Err(format!("ping({k}) through another instance panicked: {p}"));
+                    break;
+                }
+            }
+        }
+        let d2 = catch(move || drop(c2));
+        let d1 = catch(move || drop(c1));
+        let verdict = match c.finish % 3 {
+            1 => catch(move || u.verify()).map(|_| true),
+            2 => catch(move || format!("{:?}", std::process::Termination::report(u)) == format!("{:?}", std::process::ExitCode::SUCCESS)),
+            _ => catch(move || drop(u)).map(|_| true),
+        };
+        outcome?;
+        if d1.is_err() || d2.is_err() {
+            return Err("dropping a clone panicked".into());
+        }
+        match verdict {
+            Ok(true) => Ok(CaseInfo::new(true).class(["routed-through-the-original", "routed-through-a-clone", "routed-through-a-clone-of-a-clone"][c.route as usize % 3])),
+            Ok(false) => Err(format!("every expectation is met and every user clone is gone, yet report() returned FAILURE (calls routed through instance {})", c.route)),
+            Err(p) => Err(format!("every expectation is met and every user clone is gone, yet the verdict is a panic when the calls are routed through instance {}: {p}", c.route)),
+        }
+    }
+
+    pub fn lent_route_table() -> Vec<LentRouteCase> {
+        let mut v = vec![];
+        for route in 0..3u8 {
+            for calls in 1..=3u8 {
+                for finish in 0..3u8 {
+                    v.push(LentRouteCase { route, calls, finish });
+                }
+            }
+        }
+        v
+    }
+}
+
 pub fn replay(sub: &str, case: Value) -> Result<(), String> {
     fn de<T: serde::de::DeserializeOwned>(v: Value) -> Result<T, String> {
         serde_json::from_value(v).map_err(|e| format!("HARNESS: bad case: {e}"))
     }
     if sub.starts_with("racing") {
         return super::c10::replay(sub, case);
+    }
+    #[cfg(feature = "std")]
+    if sub == "route-lent-clone" {
+        return lent::check_lent_route(&de(case)?).map(|_| ());
     }
     match sub {
         "permute" => check_perm(&de(case)?).map(|_| ()),
